@@ -262,6 +262,8 @@ HistResults == <<
     [iscsd |-> TRUE,  fs |-> <<2, 1>>, bins |-> <<CB(1, <<1, 1>>, <<1, 1>>, <<5, 6>>, U3, 5)>>],
     [iscsd |-> TRUE,  fs |-> <<2, 1>>, bins |-> <<CB(1, <<1, 1>>, <<1, 1>>, <<3, 4>>, U4, 5), CB(2, <<1, 1>>, <<2, 1>>, <<1, 2>>, U5, 5), CB(3, <<3, 1>>, <<1, 1>>, <<7, 8>>, U4, 2)>>],
     [iscsd |-> FALSE, fs |-> <<2, 1>>, bins |-> <<AB(1, <<3, 1>>, 2)>>],
+    \* a dead input channel in the first bin (XX = 0 exactly: the masked divisions of coh, Hxy, cf, ... must give their defined zeros in any access order)
+    [iscsd |-> TRUE,  fs |-> <<2, 1>>, bins |-> <<CB(1, <<0, 1>>, <<1, 1>>, <<1, 2>>, U2, 5), CB(2, <<1, 1>>, <<1, 1>>, <<3, 4>>, U3, 2), CB(3, <<1, 1>>, <<0, 1>>, <<1, 2>>, U1, 5)>>],
     \* two bins (a length-2 result: any length-2 helper array must not be mistaken for a per-bin column), phase wrapping between them
     [iscsd |-> TRUE,  fs |-> <<2, 1>>, bins |-> <<CB(1, <<1, 1>>, <<1, 1>>, <<3, 4>>, U4, 5), CB(2, <<1, 1>>, <<2, 1>>, <<1, 2>>, U5, 2)>>] >>
 HistInit == \E i \in 1..Len(HistResults) : rid = i /\ res = HistResults[i]
